@@ -86,6 +86,71 @@ def _cmp_cell(e, field, op, c):
             and const_of(t[3]) == c)
 
 
+class _CountTest:
+    """a cond event read as `value of <field> at read <read>  ==  n` being `value`"""
+    __slots__ = ("event", "index", "read", "value", "term")
+
+    def __init__(self, event, index, read, value):
+        self.event, self.index, self.read, self.value = event, index, read, value
+        self.term = (None, None, read)
+
+    def loc(self):
+        return self.event.loc()
+
+
+def _count_eq_tests(p, field, n):
+    """every test on the path that decides `field == n` for some read of the field, whatever way it is written:
+    `get == n`, `get - k == n - k`, `get + k == n + k`, or a later `get` that reads back what `set(get - k)` just wrote"""
+    out = []
+    # reads that return a value just written: get#m after set(field, G -/+ k)
+    alias = {}
+    last_set = None
+    for e in p.events:
+        if e.kind != "call":
+            continue
+        if e.ntarget == "std::cell::Cell::set" and field in show(e.args[0]):
+            last_set = e.args[1]
+        elif e.ntarget == "std::cell::Cell::get" and _cell_get(e.result, field) and last_set is not None:
+            alias[e.result] = last_set
+        elif e.ntarget not in ("std::cell::Cell::get", "std::cell::Cell::set") and not (e.ntarget or "").startswith("core::"):
+            # any other call may run code that changes the cell
+            last_set = None
+
+    def base(x, off=0, depth=0):
+        x = strip(x)
+        if _cell_get(x, field):
+            if x in alias and depth < 4:
+                return base(alias[x], off, depth + 1)
+            return x, off
+        if isinstance(x, tuple) and x[0] == "bin" and x[1] in ("Sub", "Add") and const_of(x[3]) is not None:
+            k = const_of(x[3])
+            return base(x[2], off + (k if x[1] == "Sub" else -k), depth)
+        if isinstance(x, tuple) and x[0] == "cast":
+            return base(x[-1], off, depth)
+        # checked_add(G, k).unwrap() / wrapping_add(G, k) and the subtracting twins
+        if isinstance(x, tuple) and x[0] == "field" and x[1] == "0" and isinstance(x[2], tuple) and x[2][0] == "variant" \
+                and x[2][1] == "Some":
+            x = strip(x[2][2])
+        if isinstance(x, tuple) and x[0] == "call" and len(x[2]) == 2 and const_of(x[2][1]) is not None:
+            nm = norm(x[1])
+            k = const_of(x[2][1])
+            if nm in ("core::num::checked_add", "core::num::wrapping_add"):
+                return base(x[2][0], off - k, depth)
+            if nm in ("core::num::checked_sub", "core::num::wrapping_sub"):
+                return base(x[2][0], off + k, depth)
+        return None, 0
+    for i, e in enumerate(p.events):
+        if e.kind != "cond":
+            continue
+        t = e.term
+        if not (isinstance(t, tuple) and t[0] == "bin" and t[1] == "Eq" and const_of(t[3]) is not None):
+            continue
+        g, off = base(t[2])
+        if g is not None and const_of(t[3]) + off == n:
+            out.append(_CountTest(e, i, g, e.value))
+    return out
+
+
 # ------------------------------------------------------------------------------------------
 def rule_pin_validate(ctx):
     r = RuleResult("EBR-PIN-VALIDATE", ["C13", "C14"],
@@ -98,7 +163,7 @@ def rule_pin_validate(ctx):
         if p.exit[0] == "diverge":
             continue
         r.paths += 1
-        outer = [e for e in p.events if _cmp_cell(e, "Local.guard_count", "Eq", 0)]
+        outer = _count_eq_tests(p, "Local.guard_count", 0)
         if not outer:
             r.violate(PIN, "outermost", "pin does not distinguish the outermost guard (guard_count == 0)", b.loc(0))
             continue
@@ -506,7 +571,7 @@ def rule_collect_outermost(ctx):
         n += 1
         i = ci[0]
         pre = p.events[:i]
-        outer = any(_cmp_cell(e, "Local.guard_count", "Eq", 1) and e.value == 1 for e in pre)
+        outer = any(t.value == 1 and t.index < i for t in _count_eq_tests(p, "Local.guard_count", 1))
         notcoll = any(e.kind == "cond" and _cell_get(e.term, "Local.collecting") and e.value == 0 for e in pre)
         setc = any(e.kind == "call" and e.ntarget == "std::cell::Cell::set" and "Local.collecting" in show(e.args[0])
                    and const_of(e.args[1]) == 1 for e in pre)
@@ -711,14 +776,16 @@ def rule_cell_rmw(ctx):
     n = 0
     for name in sorted(nm for nm in prog.bodies if nm.startswith(L) and prog.bodies[nm].kind != "closure"):
         b = prog.body(name)
-        if not any(norm(c.target or "") == "std::cell::Cell::set" for (_, _, c) in b.calls()):
+        # (the write may sit in a helper that is read inlined: `update(&self.count, |n| n + 1)`)
+        inl = prog.auto_inline() if hasattr(prog, "auto_inline") else set()
+        if not any(norm(c.target or "") == "std::cell::Cell::set" or (c.target in inl) for (_, _, c) in b.calls()):
             continue
         r.functions.add(name)
         seen = set()
         for p in Exec(prog, unroll=2).paths(b):
             r.paths += 1
             for i, e in enumerate(p.events):
-                if e.kind != "call" or e.ntarget != "std::cell::Cell::set" or e.frame:
+                if e.kind != "call" or e.ntarget != "std::cell::Cell::set":
                     continue
                 cell = outer_field(e.args[0])
                 if not cell or not cell.startswith("Local."):
@@ -730,8 +797,8 @@ def rule_cell_rmw(ctx):
                 gi = [j for j, q in enumerate(p.events[:i]) if q.kind == "call" and q.result == gets[0]]
                 if not gi:
                     continue
-                between = [q for q in p.events[gi[-1] + 1:i] if q.kind == "call" and (q.target in user) and not q.frame]
-                key = (cell, e.bb, tuple(sorted({q.target for q in between})))
+                between = [q for q in p.events[gi[-1] + 1:i] if q.kind == "call" and (q.target in user)]
+                key = (cell, e.body.name, e.bb, tuple(sorted({q.target for q in between})))
                 if key in seen:
                     continue
                 seen.add(key)
@@ -1018,15 +1085,16 @@ def rule_guard_count(ctx):
                 r.violate(UNPIN, "stale-count", "unpin writes back the guard count it read before running the collection: a guard "
                           "that a destructor created during the collection and that is still alive is not counted (thread "
                           "unpinned under a live guard, underflow when it is dropped)", sets[0].loc())
-        outer = [e for e in p.events if _cmp_cell(e, "Local.guard_count", "Eq", 1) and (src is None or e.term[2] == src)]
+        outer_all = _count_eq_tests(p, "Local.guard_count", 1)
+        outer = [e for e in outer_all if src is None or e.read == src]
         if not outer:
-            outer = [e for e in p.events if _cmp_cell(e, "Local.guard_count", "Eq", 1)]
+            outer = outer_all
         is_outer = bool(outer) and outer[-1].value == 1
         # ... and the test that decides the clear must look at a count read after the collection too: the count written
         # back may be right while the thread is unpinned on the word of the value read on entry
         ci = [i for i, e in enumerate(p.events) if e.kind == "call" and e.target == COLLECT]
         if outer and ci and clears:
-            gi = [i for i, e in enumerate(p.events) if e.kind == "call" and e.result == outer[-1].term[2]]
+            gi = [i for i, e in enumerate(p.events) if e.kind == "call" and e.result == outer[-1].read]
             fresh_test = bool(gi) and gi[0] > ci[-1]
             r.instance("unpin: the outermost test that clears Local.epoch reads the count after the collection", fresh_test)
             if not fresh_test:
@@ -1188,9 +1256,13 @@ def rule_finalize_handoff(ctx):
         if ok:
             ptg = p.events[s[1]]
             ok = strip(ptg.args[1]) == p.events[s[0]].result
-            hs = [(i, const_of(e.args[1])) for i, e in enumerate(p.events) if e.kind == "call" and
+            hs = [(i, const_of(e.args[1]), e.args[1]) for i, e in enumerate(p.events) if e.kind == "call" and
                   e.ntarget == "std::cell::Cell::set" and "Local.handle_count" in show(e.args[0])]
-            ok = ok and len(hs) == 2 and hs[0][1] == 1 and hs[0][0] < s[0] and hs[1][1] == 0 and hs[1][0] > s[1]
+            # the count is put back to zero - or to the value found (read before the temporary 1 was written)
+            back = len(hs) == 2 and (hs[1][1] == 0 or any(
+                e.kind == "call" and e.ntarget == "std::cell::Cell::get" and e.result == strip(hs[1][2])
+                and "Local.handle_count" in show(e.args[0]) for e in p.events[:hs[0][0]]))
+            ok = ok and len(hs) == 2 and hs[0][1] == 1 and hs[0][0] < s[0] and back and hs[1][0] > s[1]
         r.instance("finalize: handle_count:=1; pin; push_to_global; handle_count:=0; entry.delete", ok)
         if not ok:
             r.violate(FINALIZE, "handoff", "finalize must push the local bag to the global queue under its own pin (with the "
@@ -1201,7 +1273,7 @@ def rule_finalize_handoff(ctx):
     for p in ctx.ex.paths(ub):
         if p.exit[0] != "return":
             continue
-        outer = [e for e in p.events if _cmp_cell(e, "Local.guard_count", "Eq", 1)]
+        outer = _count_eq_tests(p, "Local.guard_count", 1)
         hz = [e for e in p.events if _cmp_cell(e, "Local.handle_count", "Eq", 0)]
         fin = [e for e in p.events if e.kind == "call" and e.target == FINALIZE]
         # (the last test decides: unpin re-reads the count after the collection, F11)
@@ -1222,8 +1294,8 @@ def rule_finalize_handoff(ctx):
     for p in ctx.ex.paths(rb):
         if p.exit[0] != "return":
             continue
-        g0 = [e for e in p.events if _cmp_cell(e, "Local.guard_count", "Eq", 0)]
-        h1 = [e for e in p.events if _cmp_cell(e, "Local.handle_count", "Eq", 1)]
+        g0 = _count_eq_tests(p, "Local.guard_count", 0)
+        h1 = _count_eq_tests(p, "Local.handle_count", 1)
         fin = [e for e in p.events if e.kind == "call" and e.target == FINALIZE]
         last = bool(g0) and g0[-1].value == 1 and bool(h1) and h1[-1].value == 1
         undecided = not g0 or (g0[-1].value == 1 and not h1)
